@@ -486,3 +486,114 @@ def polymorphic_factories(P, R, rid):
                             u.loc(x), '%s builds its jobs / commands with %s: the class substituted by the prediction '
                             'model is bypassed and the prediction runs the real effects' % (u.qual, ast.unparse(x)))
     R.require(n >= 3, 'only %d reads of job_class / command_class found' % n)
+
+
+def strategy_defaults(P, R, rid, attr):
+    """the failure strategy of a program is the one of its rules file entry, the application's being only the default:
+    in Context.setdefault_process the application value is copied into the new ProcessRules BEFORE the parser loads the
+    program rules into the same object (copied after, it overwrites what the user configured for the program)."""
+    from ..defuse import closed_text
+    u = P.unit('Context.setdefault_process')
+    load = [c for c in own_nodes(u.node) if isinstance(c, ast.Call) and isinstance(c.func, ast.Attribute)
+            and c.func.attr == 'load_program_rules']
+    dflt = [a for a in own_nodes(u.node) if isinstance(a, ast.Assign) and isinstance(a.targets[0], ast.Attribute)
+            and a.targets[0].attr == attr]
+    ok = len(load) == 1 and len(dflt) == 1 and len(load[0].args) == 2 and \
+        ast.unparse(dflt[0].targets[0].value) == ast.unparse(load[0].args[1]) and \
+        closed_text(u, dflt[0].value) in ('application.rules.' + attr,
+                                          "self.setdefault_application(info['group']).rules." + attr) and \
+        (dflt[0].lineno, dflt[0].col_offset) < (load[0].lineno, load[0].col_offset)
+    R.check(rid, ok, 'the application %s is a default that the program rules override' % attr,
+            'strategy|default-before-rules|' + attr, u.loc(), 'Context.setdefault_process does not copy the application '
+            '%s into the new rules before load_program_rules(namespec, rules): the strategy configured for the program '
+            'is overwritten by the application\'s' % attr)
+
+
+def proxy_renewed_on_failure(P, R, rid):
+    """after a transport failure the ServerProxy object is not reusable (every later call raises CannotSendRequest):
+    SupervisorProxy.xml_rpc drops it (self._proxy = None) on EVERY transport failure - whatever `connected` says - so
+    that the next call builds a new one; otherwise a peer that comes back is never reachable again."""
+    from ..paths import factmap
+    u = P.unit('SupervisorProxy.xml_rpc')
+    fm = factmap(u)
+    hs = [h for h in own_nodes(u.node) if isinstance(h, ast.ExceptHandler) and h.type is not None
+          and 'OSError' in ast.unparse(h.type)]
+    resets = [a for h in hs for st in h.body for a in ast.walk(st)
+              if isinstance(a, ast.Assign) and ast.unparse(a.targets[0]) == 'self._proxy' and ast.unparse(a.value) == 'None']
+    plain = [a for h in hs for a in h.body if any(a is r for r in resets)]
+    ok = len(hs) == 1 and bool(plain)
+    R.check(rid, ok, 'a transport failure always drops the broken ServerProxy', 'proxy-renewed|xml_rpc', u.loc(),
+            'SupervisorProxy.xml_rpc does not reset self._proxy unconditionally in its OSError / HTTPException handler '
+            '(resets under %s): the broken ServerProxy is reused and the peer is never reachable again' %
+            [sorted((f[0], f[1]) for f in fm.at(a)) for a in resets])
+    gp = [x for x in P.cls('SupervisorProxy').props.values() if x.name == 'proxy'] if hasattr(P.cls('SupervisorProxy'), 'props') else []
+    if gp:
+        g = gp[0]
+        fmg = factmap(g)
+        mk = [a for a in own_nodes(g.node) if isinstance(a, ast.Assign) and ast.unparse(a.targets[0]) == 'self._proxy']
+        ok = any({(f[0], f[1]) for f in fmg.at(a)} in ({('self._proxy', False)}, {('self._proxy is None', True)}) and
+                 isinstance(a.value, ast.Call) for a in mk)
+        R.check(rid, ok, 'a dropped ServerProxy is rebuilt at the next use', 'proxy-renewed|proxy', g.loc(),
+                'SupervisorProxy.proxy does not rebuild the ServerProxy when self._proxy is None')
+
+
+def modes_forgotten_when_lost(P, R, rid):
+    """what a peer declared (Supvisors state, starting_jobs / stopping_jobs, Master) is forgotten when it ends STOPPED or
+    ISOLATED (auto_fence): update_instance_state replaces its StateModes under both states - and never for the local
+    instance. Otherwise the jobs of a lost instance are reported in progress for ever."""
+    from ..paths import factmap, holds_when, enum_env
+    u = P.unit('SupvisorsStateModes.update_instance_state')
+    fm = factmap(u)
+    rs = [a for a in own_nodes(u.node) if isinstance(a, ast.Assign) and
+          ast.unparse(a.targets[0]) == 'self.instance_state_modes[identifier]' and isinstance(a.value, ast.Call)
+          and ast.unparse(a.value.func) == 'StateModes']
+    members = P.enum_members('SupvisorsInstanceStates')
+    ok = len(rs) == 1
+    on = []
+    if ok:
+        facts = {(f[0], f[1]) for f in fm.closed(rs[0])}
+        state_facts = {f for f in facts if 'new_state' in f[0]}
+        other = facts - state_facts
+        on = sorted(m for m in members if holds_when(state_facts, enum_env(P, 'SupvisorsInstanceStates', 'new_state', m)) is True)
+        ok = on == ['ISOLATED', 'STOPPED'] and other == {('identifier == self.local_identifier', False)}
+    R.check(rid, ok, 'the modes declared by a peer are forgotten when it becomes STOPPED or ISOLATED', 'modes-reset',
+            u.loc(), 'update_instance_state renews the StateModes of the instance for the states %s (expected ISOLATED '
+            'and STOPPED, for a remote instance): starting / stopping jobs declared by a lost instance stay reported' % on)
+
+
+def forced_payload_copied(P, R, rid):
+    """the forced event applied locally and the one published to the peers are the same dictionary: Context rewrites it
+    (state, removal of 'forced') on a COPY, so that the peers receive the forced event and not an ordinary one."""
+    from ..paths import call_text
+    # the event given to Context.on_process_state_event is the very dictionary that is published to the other
+    # instances: the internal 'forced' marker is removed from a COPY
+    ce = P.unit('Context.on_process_state_event')
+    ev = ce.node.args.args[2].arg if len(ce.node.args.args) > 2 else 'event'
+    def blocks(stmts):
+        yield stmts
+        for st in stmts:
+            for f in ('body', 'orelse', 'finalbody'):
+                v = getattr(st, f, None)
+                if isinstance(v, list) and v and isinstance(v[0], ast.stmt) and not isinstance(st, ast.FunctionDef):
+                    yield from blocks(v)
+            for h in getattr(st, 'handlers', []) or []:
+                yield from blocks(h.body)
+    bad, n_rm = [], 0
+    for blk in blocks(ce.node.body):
+        copied = False
+        for st in blk:
+            if isinstance(st, ast.Assign) and len(st.targets) == 1 and isinstance(st.targets[0], ast.Name) and \
+                    st.targets[0].id == ev and ast.unparse(st.value) in (ev + '.copy()', 'dict(%s)' % ev, 'copy(%s)' % ev):
+                copied = True
+            rm = (isinstance(st, ast.Delete) and any(ast.unparse(t) == "%s['forced']" % ev for t in st.targets)) or \
+                (isinstance(st, ast.Expr) and isinstance(st.value, ast.Call) and call_text(st.value) == ev + '.pop'
+                 and st.value.args and isinstance(st.value.args[0], ast.Constant) and st.value.args[0].value == 'forced')
+            if rm:
+                n_rm += 1
+                if not copied:
+                    bad.append(ce.loc(st))
+    R.check(rid, n_rm >= 1 and not bad, "the internal 'forced' marker is removed from a copy of the received event",
+            'forced|payload-shared', ce.loc(), "Context.on_process_state_event removes 'forced' from the event it received "
+            "(%s) instead of from a copy: the same dictionary is sent to the other instances, which then handle the forced "
+            "event as an ordinary one" % (bad or 'no removal found'))
+
